@@ -43,9 +43,13 @@ pub enum Variant {
     /// the `lin` body run 1.3 million frames deep on a large stack (a terminating recursion of any depth the stack can
     /// hold is lawful); sub-grid: at most two captures, at most two arguments
     Deep,
+    /// the `lin` body with early `return` statements, and the closure called 4.5 million times at shallow depth (state that
+    /// an expansion keeps across calls - counters, guards - is exercised by volume, not by depth); sub-grid like `deep`
+    Churn,
 }
 
-pub const ALL_VARIANTS: [Variant; 7] = [Variant::Lin, Variant::Two, Variant::Types, Variant::Mix, Variant::Refs, Variant::Names, Variant::Deep];
+pub const ALL_VARIANTS: [Variant; 8] = [Variant::Lin, Variant::Two, Variant::Types, Variant::Mix, Variant::Refs, Variant::Names, Variant::Deep, Variant::Churn];
+pub const CHURN_CALLS: u64 = 4_500_000;
 pub const DEEP_DEPTH: u64 = 1_300_000;
 
 impl Variant {
@@ -58,6 +62,7 @@ impl Variant {
             Variant::Refs => "refs",
             Variant::Names => "names",
             Variant::Deep => "deep",
+            Variant::Churn => "churn",
         }
     }
     pub fn parse(s: &str) -> Option<Variant> {
@@ -323,11 +328,13 @@ impl Shape {
         }
         let vs: Vec<String> = (0..k).map(|i| format!("v{i}")).collect();
         // call budget: a runaway recursion becomes a panic (caught in main) instead of a stack overflow
-        if self.variant != Variant::Deep {
+        if self.variant != Variant::Deep && self.variant != Variant::Churn {
             l.insert(0, "crate::support::tick();".to_string());
         }
         // trace: (call index, arguments), flattened
-        if let Some(t) = caps.iter().find(|c| c.is_trace) {
+        if self.variant == Variant::Churn {
+            // millions of calls: no per-call trace (return values and captures are still compared)
+        } else if let Some(t) = caps.iter().find(|c| c.is_trace) {
             l.push(format!("let call_index = {}.len() as u64;", t.name));
             l.push(format!("{}.push(call_index);", t.name));
             for v in &vs {
@@ -376,7 +383,16 @@ impl Shape {
             };
             format!("v{other}.wrapping_mul(3).wrapping_add(v{i}) % 1000")
         };
-        let b_expr = |i: usize| -> String { format!("v{i}.wrapping_add(h % 5 + {i}) % 1000") };
+        // (the last argument of the second recursive call of the plain bodies is pure integer-literal arithmetic whose
+        // type is only fixed by the parameter it is passed to: 2^36 does not fit the literal's fallback type)
+        let literal_last = matches!(self.variant, Variant::Lin | Variant::Names | Variant::Churn) && k >= 2;
+        let b_expr = |i: usize| -> String {
+            if literal_last && i + 1 == k {
+                format!("((1 << 36) >> 33) + {i}")
+            } else {
+                format!("v{i}.wrapping_add(h % 5 + {i}) % 1000")
+            }
+        };
         let compound = |i: usize, e: String, e2: String| -> String {
             // argument expressions with inner commas / braces (macro `expr` fragments)
             match i % 3 {
@@ -406,7 +422,7 @@ impl Shape {
         };
         let cond = if k >= 2 { "v1 % 2 == 0" } else { "v0 % 3 == 0" };
         match self.variant {
-            Variant::Lin | Variant::Types | Variant::Refs | Variant::Names | Variant::Deep => {
+            Variant::Lin | Variant::Types | Variant::Refs | Variant::Names | Variant::Deep | Variant::Churn => {
                 let refs1 = self.variant == Variant::Refs && k == 1;
                 let ca = call(&list(if refs1 { "&a0[1..]".into() } else { "a0 - 1".into() }, 0, None));
                 let cb = call(&list(
@@ -422,7 +438,27 @@ impl Shape {
                 ));
                 // a `&mut` argument handed on in a recursive call is reborrowed, not moved: it is used again afterwards
                 let reuse = if self.variant == Variant::Refs && k >= 2 { Some(format!("a{}", k - 1)) } else { None };
-                if self.ret {
+                if self.variant == Variant::Churn {
+                    // explicit `return` on the base case (the common way to write it), tail expression otherwise
+                    if self.ret {
+                        l.push("if v0 == 0 {".into());
+                        l.push("    return h;".into());
+                        l.push("}".into());
+                        l.push(format!("if {cond} {{"));
+                        l.push(format!("    return h.wrapping_add({ca}.wrapping_mul(31));"));
+                        l.push("}".into());
+                        l.push(format!("h ^ {cb}.wrapping_mul(17)"));
+                    } else {
+                        l.push("if v0 == 0 {".into());
+                        l.push("    return;".into());
+                        l.push("}".into());
+                        l.push(format!("if {cond} {{"));
+                        l.push(format!("    {ca};"));
+                        l.push("    return;".into());
+                        l.push("}".into());
+                        l.push(format!("{cb};"));
+                    }
+                } else if self.ret {
                     l.push("if v0 == 0 {".into());
                     l.push("    h".into());
                     l.push(format!("}} else if {cond} {{"));
@@ -572,7 +608,25 @@ impl Shape {
         }
         writeln!(w, "            }}").unwrap();
         writeln!(w, "        }});").unwrap();
-        writeln!(w, "        lam({})", inputs.join(", ")).unwrap();
+        let churn = self.variant == Variant::Churn;
+        let churn_args = |first: &str| -> String {
+            let mut v: Vec<String> = vec![first.to_string()];
+            v.extend(inputs.iter().skip(1).cloned());
+            v.join(", ")
+        };
+        if churn {
+            // the input whose first argument is 12 becomes the long run: the closure is called millions of times at depth 0 / 1
+            writeln!(w, "        let rounds: u64 = if inp[0] == 12 {{ {} }} else {{ 3 }};", CHURN_CALLS).unwrap();
+            if self.ret {
+                writeln!(w, "        let mut acc = 0u64;").unwrap();
+                writeln!(w, "        for it in 0..rounds {{ acc = acc.wrapping_mul(3).wrapping_add(lam({})); }}", churn_args("it % 2")).unwrap();
+                writeln!(w, "        acc").unwrap();
+            } else {
+                writeln!(w, "        for it in 0..rounds {{ lam({}); }}", churn_args("it % 2")).unwrap();
+            }
+        } else {
+            writeln!(w, "        lam({})", inputs.join(", ")).unwrap();
+        }
         writeln!(w, "    }};").unwrap();
         writeln!(w, "    // MACRO END").unwrap();
         writeln!(w, "    let got_trace = crate::support::trace_take();").unwrap();
@@ -604,7 +658,18 @@ impl Shape {
         for c in &caps {
             targs.push(format!("{}t_{}", if c.kind == Cap::R { "&" } else { "&mut " }, c.name));
         }
-        writeln!(w, "    let want_ret = twin({});", targs.join(", ")).unwrap();
+        if churn {
+            let mut rest: Vec<String> = vec!["it % 2".to_string()];
+            rest.extend(targs.iter().skip(1).cloned());
+            writeln!(w, "    let rounds: u64 = if inp[0] == 12 {{ {} }} else {{ 3 }};", CHURN_CALLS).unwrap();
+            if self.ret {
+                writeln!(w, "    let want_ret = {{ let mut acc = 0u64; for it in 0..rounds {{ acc = acc.wrapping_mul(3).wrapping_add(twin({})); }} acc }};", rest.join(", ")).unwrap();
+            } else {
+                writeln!(w, "    let want_ret = {{ for it in 0..rounds {{ twin({}); }} }};", rest.join(", ")).unwrap();
+            }
+        } else {
+            writeln!(w, "    let want_ret = twin({});", targs.join(", ")).unwrap();
+        }
         writeln!(w, "    let want_trace = crate::support::trace_take();").unwrap();
         writeln!(w, "    // ---- compare").unwrap();
         writeln!(w, "    crate::support::cmp(\"return value\", &got_ret, &want_ret)?;").unwrap();
@@ -617,9 +682,13 @@ impl Shape {
             writeln!(w, "    crate::support::cmp(\"{}\", &{}, &t_{})?;", what, c.name, c.name).unwrap();
         }
         writeln!(w, "    crate::support::cmp(\"thread-local trace of (call index, arguments)\", &got_trace, &want_trace)?;").unwrap();
-        match caps.iter().find(|c| c.is_trace) {
-            Some(t) => writeln!(w, "    Ok(({}.len() / {}) as u64)", t.name, k + 1).unwrap(),
-            None => writeln!(w, "    Ok((got_trace.len() / {}) as u64)", k + 1).unwrap(),
+        if churn {
+            writeln!(w, "    Ok(rounds)").unwrap();
+        } else {
+            match caps.iter().find(|c| c.is_trace) {
+                Some(t) => writeln!(w, "    Ok(({}.len() / {}) as u64)", t.name, k + 1).unwrap(),
+                None => writeln!(w, "    Ok((got_trace.len() / {}) as u64)", k + 1).unwrap(),
+            }
         }
         writeln!(w, "}}").unwrap();
         writeln!(w, "// END SHAPE {}", id).unwrap();
@@ -780,6 +849,9 @@ pub fn all_shapes(variants: &[Variant]) -> Vec<Shape> {
                     for tc in [false, true] {
                         if variant == Variant::Deep && (caps.len() > 2 || nargs > 2 || tc) {
                             continue; // sub-grid: depth is what is varied here
+                        }
+                        if variant == Variant::Churn && (caps.len() > 1 || nargs > 2 || tc) {
+                            continue; // sub-grid: the number of calls is what is varied here
                         }
                         v.push(Shape { variant, caps: caps.clone(), nargs, ret, tc });
                     }
